@@ -11,7 +11,7 @@
 #include <unistd.h>
 
 #define STACK_BYTES (512 * 1024)
-enum { T_FREE = 0, T_RUNNABLE, T_BLOCKED_JOIN, T_BLOCKED_MUTEX, T_DONE };
+enum { T_FREE = 0, T_RUNNABLE, T_BLOCKED_JOIN, T_BLOCKED_MUTEX, T_BLOCKED_BARRIER, T_DONE };
 
 typedef struct {
   ucontext_t ctx;
@@ -21,6 +21,9 @@ typedef struct {
   void *arg;
   int team, tnum, level;
   int wait_task, wait_mutex;
+  int wait_team;
+  unsigned ws_seen, single_seen; /* work-sharing / single constructs this thread has encountered in its current team */
+  int ws_cur;                    /* slot of the work-share it is in */
   int prio;
   uint32_t vc[SCHED_MAXTASK];
 } task_t;
@@ -32,6 +35,12 @@ typedef struct {
   int sections_by[17];
   void (*fn)(void *);
   void *data;
+  /* barrier */
+  int bar_arrived; unsigned bar_gen;
+  uint32_t bar_vc[SCHED_MAXTASK], bar_rel[SCHED_MAXTASK];
+  /* dynamically scheduled work-sharing loops: a small ring indexed by the ordinal of the construct */
+  struct { unsigned ordinal; long next, end, incr, chunk; int guided; } ws[8];
+  unsigned single_done; /* highest ordinal of a `single` construct that has been claimed */
 } team_t;
 
 typedef struct { void *key; int owner; uint32_t vc[SCHED_MAXTASK]; int used; } mutex_t;
@@ -267,6 +276,7 @@ static int new_task(void (*fn)(void *), void *arg, int team, int tnum, int level
   t->ctx.uc_link = NULL;
   makecontext(&t->ctx, tramp, 0);
   t->fn = fn; t->arg = arg; t->team = team; t->tnum = tnum; t->level = level;
+  t->ws_seen = 0; t->single_seen = 0; t->ws_cur = 0;
   t->state = T_RUNNABLE;
   /* fork edge: the child starts with everything the parent has done so far */
   uint32_t own = t->vc[id];
@@ -334,6 +344,7 @@ int sched_dump_decisions(char *buf, size_t n) {
 }
 
 /* ================= simulated OpenMP runtime ================= */
+static int omp_nthreads_var;
 static int seq_sections, seq_next;
 typedef struct { int team, tnum; } member_arg_t;
 static member_arg_t margs[SCHED_MAXTASK][17];
@@ -355,6 +366,7 @@ static void run_region(void (*fn)(void *), void *data, unsigned req, int section
   int n = cfg.team_size;
   if (cfg.dynamic_team) n = 1 + (int)rng_below(&srng, (uint64_t)cfg.team_size);
   if (req && (int)req < n) n = (int)req;
+  if (!req && omp_nthreads_var > 0 && omp_nthreads_var < n) n = omp_nthreads_var;
   if (level > 1) { sched_stats.nested_regions++; if (!cfg.nested) n = 1; }
   int ti = -1;
   for (int i = 0; i < SCHED_MAXTASK; i++) if (!teams[i].used) { ti = i; break; }
@@ -372,7 +384,9 @@ static void run_region(void (*fn)(void *), void *data, unsigned req, int section
     margs[ti][i].team = ti; margs[ti][i].tnum = i;
     tm->members[i] = new_task(team_thread, &margs[ti][i], ti, i, level);
   }
+  unsigned saved_ws = me->ws_seen, saved_single = me->single_seen; int saved_wscur = me->ws_cur;
   tasks[master].team = ti; tasks[master].tnum = 0; tasks[master].level = level;
+  tasks[master].ws_seen = 0; tasks[master].single_seen = 0; tasks[master].ws_cur = 0;
   sched_yield_point(YC_RUNTIME);
   fn(data);
   /* implicit barrier + join */
@@ -384,6 +398,7 @@ static void run_region(void (*fn)(void *), void *data, unsigned req, int section
     sched_stats.idle_threads += (uint64_t)idle;
   }
   tasks[master].team = saved_team; tasks[master].tnum = saved_tnum; tasks[master].level = saved_level;
+  tasks[master].ws_seen = saved_ws; tasks[master].single_seen = saved_single; tasks[master].ws_cur = saved_wscur;
   tm->used = 0;
   sched_yield_point(YC_RUNTIME);
 }
@@ -400,10 +415,162 @@ unsigned GOMP_sections_next(void) {
   return r;
 }
 void GOMP_sections_end_nowait(void) {}
-void GOMP_barrier(void) { fatal("GOMP_barrier is not imported by the library objects: unexpected call"); }
+/* team barrier: everybody waits for everybody; everything done before it happens-before everything after it */
+void GOMP_barrier(void) {
+  if (!enabled || tasks[cur].team < 0) return;
+  team_t *tm = &teams[tasks[cur].team];
+  if (tm->n <= 1) return;
+  sched_yield_point(YC_RUNTIME);
+  vc_join(tm->bar_vc, tasks[cur].vc);
+  tasks[cur].vc[cur]++;
+  unsigned gen = tm->bar_gen;
+  if (++tm->bar_arrived == tm->n) {
+    tm->bar_arrived = 0;
+    tm->bar_gen++;
+    memcpy(tm->bar_rel, tm->bar_vc, sizeof tm->bar_rel);
+    memset(tm->bar_vc, 0, sizeof tm->bar_vc);
+    for (int i = 0; i < SCHED_MAXTASK; i++)
+      if (tasks[i].state == T_BLOCKED_BARRIER && tasks[i].wait_team == tasks[cur].team) tasks[i].state = T_RUNNABLE;
+  } else {
+    while (tm->bar_gen == gen) {
+      tasks[cur].state = T_BLOCKED_BARRIER;
+      tasks[cur].wait_team = tasks[cur].team;
+      schedule_forced(); /* a member that never arrives (it left the region) ends in "deadlock": a liveness violation */
+    }
+  }
+  vc_join(tasks[cur].vc, tm->bar_rel);
+  sched_stats.barriers++;
+  sched_yield_point(YC_RUNTIME);
+}
+/* ---- work-sharing loops with a run-time schedule (dynamic / guided / runtime); static schedules are compiled inline ---- */
+static int seq_ws_active; static long seq_ws_next, seq_ws_end, seq_ws_incr;
+static int ws_start(long start, long end, long incr, long chunk, int guided, long *istart, long *iend);
+static int ws_next(long *istart, long *iend) {
+  if (!enabled || tasks[cur].team < 0) { /* sequential semantics: the whole range in one piece */
+    if (!seq_ws_active) return 0;
+    seq_ws_active = 0;
+    if ((seq_ws_incr > 0 && seq_ws_next >= seq_ws_end) || (seq_ws_incr < 0 && seq_ws_next <= seq_ws_end)) return 0;
+    *istart = seq_ws_next; *iend = seq_ws_end;
+    return 1;
+  }
+  team_t *tm = &teams[tasks[cur].team];
+  sched_yield_point(YC_CRITICAL); /* who takes the next chunk is the scheduler's choice */
+  int k = tasks[cur].ws_cur;
+  long n = tm->ws[k].next, e = tm->ws[k].end, inc = tm->ws[k].incr;
+  if ((inc > 0 && n >= e) || (inc < 0 && n <= e)) return 0;
+  long left = inc > 0 ? (e - n + inc - 1) / inc : (n - e - inc - 1) / -inc;
+  long take = tm->ws[k].chunk < 1 ? 1 : tm->ws[k].chunk;
+  if (tm->ws[k].guided) { long g = (left + tm->n - 1) / tm->n; if (g > take) take = g; }
+  if (take > left) take = left;
+  *istart = n; *iend = n + take * inc;
+  tm->ws[k].next = *iend;
+  sched_stats.ws_chunks++;
+  sched_yield_point(YC_CRITICAL);
+  return 1;
+}
+static int ws_start(long start, long end, long incr, long chunk, int guided, long *istart, long *iend) {
+  if (!enabled || tasks[cur].team < 0) { seq_ws_active = 1; seq_ws_next = start; seq_ws_end = end; seq_ws_incr = incr ? incr : 1; return ws_next(istart, iend); }
+  team_t *tm = &teams[tasks[cur].team];
+  unsigned ord = ++tasks[cur].ws_seen;
+  int k = (int)(ord % 8);
+  sched_yield_point(YC_CRITICAL);
+  if (tm->ws[k].ordinal != ord) { tm->ws[k].ordinal = ord; tm->ws[k].next = start; tm->ws[k].end = end; tm->ws[k].incr = incr ? incr : 1; tm->ws[k].chunk = chunk; tm->ws[k].guided = guided; }
+  tasks[cur].ws_cur = k;
+  return ws_next(istart, iend);
+}
+#define WS_FAMILY(name, guided)                                                                                                        \
+  int GOMP_loop_##name##_start(long s, long e, long i, long c, long *is, long *ie) { return ws_start(s, e, i, c, guided, is, ie); }    \
+  int GOMP_loop_##name##_next(long *is, long *ie) { return ws_next(is, ie); }                                                          \
+  void GOMP_parallel_loop_##name(void (*fn)(void *), void *data, unsigned nt, long s, long e, long i, long c, unsigned flags);
+WS_FAMILY(dynamic, 0)
+WS_FAMILY(guided, 1)
+WS_FAMILY(nonmonotonic_dynamic, 0)
+WS_FAMILY(nonmonotonic_guided, 1)
+int GOMP_loop_runtime_start(long s, long e, long i, long *is, long *ie) { return ws_start(s, e, i, 1, 0, is, ie); }
+int GOMP_loop_runtime_next(long *is, long *ie) { return ws_next(is, ie); }
+int GOMP_loop_maybe_nonmonotonic_runtime_start(long s, long e, long i, long *is, long *ie) { return ws_start(s, e, i, 1, 0, is, ie); }
+int GOMP_loop_maybe_nonmonotonic_runtime_next(long *is, long *ie) { return ws_next(is, ie); }
+int GOMP_loop_nonmonotonic_runtime_start(long s, long e, long i, long *is, long *ie) { return ws_start(s, e, i, 1, 0, is, ie); }
+int GOMP_loop_nonmonotonic_runtime_next(long *is, long *ie) { return ws_next(is, ie); }
+void GOMP_loop_end(void) { GOMP_barrier(); }
+void GOMP_loop_end_nowait(void) {}
+int GOMP_loop_end_cancel(void) { GOMP_barrier(); return 0; }
+/* combined parallel + loop: the first work-share of the new team is set up by whoever arrives first, from the arguments kept in the team */
+typedef struct { void (*fn)(void *); void *data; long s, e, i, c; int guided; } ploop_t;
+static void ploop_body(void *ud) {
+  ploop_t *p = (ploop_t *)ud;
+  /* pre-register the loop so that the outlined body's GOMP_loop_*_next calls find it */
+  if (enabled && tasks[cur].team >= 0) {
+    team_t *tm = &teams[tasks[cur].team];
+    unsigned ord = ++tasks[cur].ws_seen;
+    int k = (int)(ord % 8);
+    if (tm->ws[k].ordinal != ord) { tm->ws[k].ordinal = ord; tm->ws[k].next = p->s; tm->ws[k].end = p->e; tm->ws[k].incr = p->i ? p->i : 1; tm->ws[k].chunk = p->c; tm->ws[k].guided = p->guided; }
+    tasks[cur].ws_cur = k;
+  } else { seq_ws_active = 1; seq_ws_next = p->s; seq_ws_end = p->e; seq_ws_incr = p->i ? p->i : 1; }
+  p->fn(p->data);
+}
+#define PLOOP(name, g)                                                                                                                  \
+  void GOMP_parallel_loop_##name(void (*fn)(void *), void *data, unsigned nt, long s, long e, long i, long c, unsigned flags) {       \
+    (void)flags; ploop_t p = { fn, data, s, e, i, c, g }; run_region(ploop_body, &p, nt, 0); }
+PLOOP(dynamic, 0)
+PLOOP(guided, 1)
+PLOOP(nonmonotonic_dynamic, 0)
+PLOOP(nonmonotonic_guided, 1)
+void GOMP_parallel_loop_runtime(void (*fn)(void *), void *data, unsigned nt, long s, long e, long i, unsigned flags) { (void)flags; ploop_t p = { fn, data, s, e, i, 1, 0 }; run_region(ploop_body, &p, nt, 0); }
+void GOMP_parallel_loop_maybe_nonmonotonic_runtime(void (*fn)(void *), void *data, unsigned nt, long s, long e, long i, unsigned flags) { (void)flags; ploop_t p = { fn, data, s, e, i, 1, 0 }; run_region(ploop_body, &p, nt, 0); }
+void GOMP_parallel_loop_nonmonotonic_runtime(void (*fn)(void *), void *data, unsigned nt, long s, long e, long i, unsigned flags) { (void)flags; ploop_t p = { fn, data, s, e, i, 1, 0 }; run_region(ploop_body, &p, nt, 0); }
+/* sections inside an existing parallel region */
+unsigned GOMP_sections_start(unsigned count) {
+  if (!enabled || tasks[cur].team < 0) { seq_sections = (int)count; seq_next = 1; return GOMP_sections_next(); }
+  team_t *tm = &teams[tasks[cur].team];
+  unsigned ord = ++tasks[cur].ws_seen;
+  sched_yield_point(YC_CRITICAL);
+  if (tm->ws[ord % 8].ordinal != ord) { tm->ws[ord % 8].ordinal = ord; tm->sections_count = (int)count; tm->next_section = 1; }
+  return GOMP_sections_next();
+}
+void GOMP_sections_end(void) { GOMP_barrier(); }
+/* single: the first thread to arrive at the construct executes it */
+int GOMP_single_start(void) {
+  if (!enabled || tasks[cur].team < 0) return 1;
+  team_t *tm = &teams[tasks[cur].team];
+  unsigned ord = ++tasks[cur].single_seen;
+  sched_yield_point(YC_CRITICAL);
+  if (tm->single_done < ord) { tm->single_done = ord; return 1; }
+  return 0;
+}
+/* explicit tasks are executed at once by the encountering thread (an allowed schedule); taskwait has nothing to wait for */
+void GOMP_task(void (*fn)(void *), void *data, void (*cpyfn)(void *, void *), long arg_size, long arg_align, int if_clause, unsigned flags, void **depend, int priority, void *detach) {
+  (void)if_clause; (void)flags; (void)depend; (void)priority; (void)detach;
+  if (cpyfn) { char *buf = (char *)__builtin_alloca((size_t)arg_size + (size_t)arg_align); char *al = (char *)(((uintptr_t)buf + (uintptr_t)arg_align - 1) & ~((uintptr_t)arg_align - 1)); cpyfn(al, data); fn(al); }
+  else fn(data);
+}
+void GOMP_taskwait(void) {}
+void GOMP_taskyield(void) { sched_yield_point(YC_RUNTIME); }
+void GOMP_taskgroup_start(void) {}
+void GOMP_taskgroup_end(void) {}
+void GOMP_ordered_start(void) {}
+void GOMP_ordered_end(void) {}
+int GOMP_cancel(int which, int do_cancel) { (void)which; (void)do_cancel; return 0; }
+int GOMP_cancellation_point(int which) { (void)which; return 0; }
+int GOMP_barrier_cancel(void) { GOMP_barrier(); return 0; }
 int omp_get_num_threads(void) { return (enabled && tasks[cur].team >= 0) ? teams[tasks[cur].team].n : 1; }
 int omp_get_thread_num(void) { return (enabled && tasks[cur].team >= 0) ? tasks[cur].tnum : 0; }
-int omp_get_max_threads(void) { return cfg.team_size ? cfg.team_size : 1; }
+/* omp_set_num_threads: an upper bound on the seeded team size */
+int omp_get_max_threads(void) { int n = cfg.team_size ? cfg.team_size : 1; return (omp_nthreads_var > 0 && omp_nthreads_var < n) ? omp_nthreads_var : n; }
+void omp_set_num_threads(int n) { omp_nthreads_var = n; }
+int omp_get_num_procs(void) { return 16; }
+int omp_in_parallel(void) { return enabled && tasks[cur].team >= 0 && teams[tasks[cur].team].n > 1; }
+int omp_get_level(void) { return (enabled && tasks[cur].team >= 0) ? tasks[cur].level : 0; }
+int omp_get_active_level(void) { return omp_in_parallel() ? tasks[cur].level : 0; }
+void omp_set_dynamic(int v) { (void)v; }
+int omp_get_dynamic(void) { return cfg.dynamic_team; }
+void omp_set_nested(int v) { (void)v; }
+int omp_get_nested(void) { return cfg.nested; }
+void omp_set_max_active_levels(int v) { (void)v; }
+int omp_get_max_active_levels(void) { return cfg.nested ? 2 : 1; }
+int omp_get_thread_limit(void) { return 16; }
+double omp_get_wtime(void) { return 1e-9 * (double)ev; } /* simulated time: one event = 1 ns */
+double omp_get_wtick(void) { return 1e-9; }
 
 static mutex_t *mutex_for(void *key) {
   for (int i = 0; i < 16; i++) if (mutexes[i].used && mutexes[i].key == key) return &mutexes[i];
@@ -440,6 +607,15 @@ void GOMP_critical_name_end(void **pptr) {
 }
 void GOMP_critical_start(void) { static void *anon; GOMP_critical_name_start(&anon); }
 void GOMP_critical_end(void) { static void *anon; GOMP_critical_name_end(&anon); }
+static void *atomic_key;
+void GOMP_atomic_start(void) { GOMP_critical_name_start(&atomic_key); }
+void GOMP_atomic_end(void) { GOMP_critical_name_end(&atomic_key); }
+/* user locks: keyed by the lock's address */
+void omp_init_lock(void *l) { (void)l; }
+void omp_destroy_lock(void *l) { (void)l; }
+void omp_set_lock(void *l) { GOMP_critical_name_start((void **)l); }
+void omp_unset_lock(void *l) { GOMP_critical_name_end((void **)l); }
+int omp_test_lock(void *l) { if (!enabled) return 1; mutex_t *m = mutex_for(l); if (m->owner != -1) return 0; GOMP_critical_name_start((void **)l); return 1; }
 
 /* ================= compiler callbacks (-fsanitize=thread, no runtime) ================= */
 #define RA ((uintptr_t)__builtin_return_address(0))
